@@ -16,6 +16,7 @@ import (
 	"github.com/yorkie-team/yorkie/pkg/key"
 	"github.com/yorkie-team/yorkie/server/backend/database"
 	"github.com/yorkie-team/yorkie/server/packs"
+	"github.com/yorkie-team/yorkie/server/revisions"
 )
 
 // Step is one action of a behaviour.
@@ -555,6 +556,9 @@ func (w *World) Step(no int, st Step, b *Behaviour) error {
 		ev["ev"] = "Activate"
 		ev["ok"], ev["err"] = err == nil, errClass(err)
 	case "compact":
+		if !precond(!w.dedupCounted(st.D), "guard KF-DEDUP-STATE-IN-OPERATION") {
+			return nil
+		}
 		err := w.S.Y.CompactDocument(w.Ctx, key.Key(w.DocKeys[st.D]), optBool(st.Opt, "force"))
 		ev["ev"] = "Compact"
 		ev["force"] = optBool(st.Opt, "force")
@@ -570,6 +574,31 @@ func (w *World) Step(no int, st Step, b *Behaviour) error {
 		} else {
 			ev["seq"], ev["epoch"], ev["rows"] = 0, 0, []any{}
 		}
+	case "revision":
+		info := w.docInfoOf(st.D)
+		if !precond(info != nil, "no doc") {
+			return nil
+		}
+		rev, err := revisions.Create(w.Ctx, w.S.Be, info.RefKey(), fmt.Sprintf("rev-%d", no), "")
+		ev["ev"] = "Revision"
+		ev["ok"], ev["err"] = err == nil, errClass(err)
+		if err == nil {
+			if w.revs == nil {
+				w.revs = map[string]types.ID{}
+			}
+			w.revs[st.D] = rev.ID
+		}
+	case "restore":
+		id, have := w.revs[st.D]
+		if !precond(have, "no revision") {
+			return nil
+		}
+		if !precond(!w.dedupCounted(st.D), "guard KF-DEDUP-STATE-IN-OPERATION") {
+			return nil
+		}
+		err := revisions.Restore(w.Ctx, w.S.Be, w.Project, id)
+		ev["ev"] = "Restore"
+		ev["ok"], ev["err"] = err == nil, errClass(err)
 	case "build":
 		info := w.docInfoOf(st.D)
 		if !precond(info != nil, "no doc") {
@@ -615,6 +644,20 @@ func (w *World) Step(no int, st Step, b *Behaviour) error {
 }
 
 var _ = json.NewObject
+
+// dedupCounted: known finding KF-DEDUP-STATE-IN-OPERATION - the document holds a dedup
+// counter that has counted at least one actor (its state does not survive a SetYSON rebuild).
+func (w *World) dedupCounted(d string) bool {
+	if !Guards {
+		return false
+	}
+	ref := w.refs[d]
+	if ref == nil || ref.Doc == nil {
+		return false
+	}
+	c, ok := ref.Doc.RootObject().Get(KDedup).(*crdt.Counter)
+	return ok && c.IsDedup() && c.Marshal() != "0"
+}
 
 // origChange finds the original in-memory change object of a stored row.
 func (w *World) origChange(d string, stored *change.Change) *change.Change {
